@@ -19,6 +19,9 @@ Gen/Enums.vos Gen/Enums.vok Gen/Enums.required_vos: Gen/Enums.v
 Gen/Layouts.vo Gen/Layouts.glob Gen/Layouts.v.beautified Gen/Layouts.required_vo: Gen/Layouts.v Base/Layout.vo
 Gen/Layouts.vio: Gen/Layouts.v Base/Layout.vio
 Gen/Layouts.vos Gen/Layouts.vok Gen/Layouts.required_vos: Gen/Layouts.v Base/Layout.vos
+Model/Hds.vo Model/Hds.glob Model/Hds.v.beautified Model/Hds.required_vo: Model/Hds.v Base/Plan.vo Base/Table.vo Gen/Consts.vo
+Model/Hds.vio: Model/Hds.v Base/Plan.vio Base/Table.vio Gen/Consts.vio
+Model/Hds.vos Model/Hds.vok Model/Hds.required_vos: Model/Hds.v Base/Plan.vos Base/Table.vos Gen/Consts.vos
 Model/Vdi.vo Model/Vdi.glob Model/Vdi.v.beautified Model/Vdi.required_vo: Model/Vdi.v Base/Plan.vo Base/Table.vo Model/Walk.vo Gen/Consts.vo
 Model/Vdi.vio: Model/Vdi.v Base/Plan.vio Base/Table.vio Model/Walk.vio Gen/Consts.vio
 Model/Vdi.vos Model/Vdi.vok Model/Vdi.required_vos: Model/Vdi.v Base/Plan.vos Base/Table.vos Model/Walk.vos Gen/Consts.vos
@@ -34,6 +37,9 @@ Model/Walk.vos Model/Walk.vok Model/Walk.required_vos: Model/Walk.v Base/Plan.vo
 Proofs/BlockMapped.vo Proofs/BlockMapped.glob Proofs/BlockMapped.v.beautified Proofs/BlockMapped.required_vo: Proofs/BlockMapped.v Base/Arith.vo Base/Plan.vo Model/Walk.vo
 Proofs/BlockMapped.vio: Proofs/BlockMapped.v Base/Arith.vio Base/Plan.vio Model/Walk.vio
 Proofs/BlockMapped.vos Proofs/BlockMapped.vok Proofs/BlockMapped.required_vos: Proofs/BlockMapped.v Base/Arith.vos Base/Plan.vos Model/Walk.vos
+Proofs/Hds.vo Proofs/Hds.glob Proofs/Hds.v.beautified Proofs/Hds.required_vo: Proofs/Hds.v Base/Arith.vo Base/Plan.vo Base/Table.vo Model/Hds.vo Proofs/BlockMapped.vo
+Proofs/Hds.vio: Proofs/Hds.v Base/Arith.vio Base/Plan.vio Base/Table.vio Model/Hds.vio Proofs/BlockMapped.vio
+Proofs/Hds.vos Proofs/Hds.vok Proofs/Hds.required_vos: Proofs/Hds.v Base/Arith.vos Base/Plan.vos Base/Table.vos Model/Hds.vos Proofs/BlockMapped.vos
 Proofs/Vdi.vo Proofs/Vdi.glob Proofs/Vdi.v.beautified Proofs/Vdi.required_vo: Proofs/Vdi.v Base/Arith.vo Base/Plan.vo Base/Table.vo Model/Walk.vo Model/Vdi.vo Proofs/BlockMapped.vo
 Proofs/Vdi.vio: Proofs/Vdi.v Base/Arith.vio Base/Plan.vio Base/Table.vio Model/Walk.vio Model/Vdi.vio Proofs/BlockMapped.vio
 Proofs/Vdi.vos Proofs/Vdi.vok Proofs/Vdi.required_vos: Proofs/Vdi.v Base/Arith.vos Base/Plan.vos Base/Table.vos Model/Walk.vos Model/Vdi.vos Proofs/BlockMapped.vos
@@ -52,3 +58,6 @@ Props/C04.vos Props/C04.vok Props/C04.required_vos: Props/C04.v Base/Plan.vos Ba
 Props/C05.vo Props/C05.glob Props/C05.v.beautified Props/C05.required_vo: Props/C05.v Base/Plan.vo Base/Table.vo Model/Vdi.vo Proofs/Vdi.vo
 Props/C05.vio: Props/C05.v Base/Plan.vio Base/Table.vio Model/Vdi.vio Proofs/Vdi.vio
 Props/C05.vos Props/C05.vok Props/C05.required_vos: Props/C05.v Base/Plan.vos Base/Table.vos Model/Vdi.vos Proofs/Vdi.vos
+Props/C06.vo Props/C06.glob Props/C06.v.beautified Props/C06.required_vo: Props/C06.v Base/Plan.vo Base/Table.vo Model/Hds.vo Proofs/Hds.vo
+Props/C06.vio: Props/C06.v Base/Plan.vio Base/Table.vio Model/Hds.vio Proofs/Hds.vio
+Props/C06.vos Props/C06.vok Props/C06.required_vos: Props/C06.v Base/Plan.vos Base/Table.vos Model/Hds.vos Proofs/Hds.vos
